@@ -205,8 +205,8 @@ impl Check for C13 {
     }
     fn cases(&self, tier: Tier, seed: u64) -> Vec<Value> {
         let k = match tier {
-            Tier::Quick => 64,
-            Tier::Thorough => 1600,
+            Tier::Quick => 160,
+            Tier::Thorough => 8000,
         };
         (0..k).map(|k| json!({"seed": seed, "k": k})).collect()
     }
@@ -363,8 +363,8 @@ impl Check for C16 {
     }
     fn cases(&self, tier: Tier, seed: u64) -> Vec<Value> {
         let k = match tier {
-            Tier::Quick => 32,
-            Tier::Thorough => 600,
+            Tier::Quick => 96,
+            Tier::Thorough => 6000,
         };
         (0..k).map(|k| json!({"seed": seed, "k": k})).collect()
     }
@@ -529,8 +529,8 @@ impl Check for C14 {
     }
     fn cases(&self, tier: Tier, seed: u64) -> Vec<Value> {
         let k = match tier {
-            Tier::Quick => 6,
-            Tier::Thorough => 60,
+            Tier::Quick => 24,
+            Tier::Thorough => 480,
         };
         let mut v = vec![];
         for k in 0..k {
@@ -689,8 +689,8 @@ impl Check for C15 {
     }
     fn cases(&self, tier: Tier, seed: u64) -> Vec<Value> {
         let k = match tier {
-            Tier::Quick => 8,
-            Tier::Thorough => 80,
+            Tier::Quick => 32,
+            Tier::Thorough => 800,
         };
         let mut v = vec![];
         for k in 0..k {
@@ -896,8 +896,8 @@ impl Check for C17 {
     }
     fn cases(&self, tier: Tier, seed: u64) -> Vec<Value> {
         let k = match tier {
-            Tier::Quick => 48,
-            Tier::Thorough => 1200,
+            Tier::Quick => 128,
+            Tier::Thorough => 6000,
         };
         (0..k).map(|k| json!({"seed": seed, "k": k})).collect()
     }
